@@ -233,6 +233,9 @@ func TestVfSocks(t *testing.T) {
 			emit(&sc)
 		})
 	}
+	if os.Getenv("VF_ONLY_SCEN") != "" { // re-run of single scenarios (confirmation of a rejection)
+		return
+	}
 	rnd := rand.New(rand.NewSource(seed*1299709 + 3))
 	// reply table: two-byte replies, in one segment / split across segments / with extra bytes
 	pairs := [][2]int{}
